@@ -248,12 +248,12 @@ def main(ctx, prop):
                         failing.append(dict(what='%s: after executing the script the device is not equivalent to the target (%s)'
                                             % (fam, {1: 'bound ACLs differ', 2: 'routes differ', 3: 'generated object left unreferenced'}[v[2]]),
                                             replay=CC.replay_of(prop, c, dict(final=c['final'])),
-                                            finding=('F-C01-1' if 'spare_equal_generated_group' in CC.classify(c, ios, ['spare_equal_generated_group']) else None),
+                                            finding=('F-C01-1' if CC.classify(c, ios, ['spare_equal_generated_group', 'equal_groups_on_device']) else None),
                                             key='noneq%d' % v[2]))
                     elif sec.strip():
                         failing.append(dict(what='%s: a second compare of the result against the same target still reports changes' % fam,
                                             replay=CC.replay_of(prop, c, dict(final=c['final'], second_compare=sec)),
-                                            finding=('F-C01-1' if 'spare_equal_generated_group' in CC.classify(c, ios, ['spare_equal_generated_group']) else None),
+                                            finding=('F-C01-1' if CC.classify(c, ios, ['spare_equal_generated_group', 'equal_groups_on_device']) else None),
                                             key='second'))
                 elif prop == 'C08':
                     if v[0]:
